@@ -77,6 +77,7 @@ fn main() {
         "C06" => facets::c06::run(&opts),
         "C09" => facets::c09::run(&opts),
         "C12" => facets::c12::run(&opts),
+        "C11" => facets::c11::run(&opts),
         other => {
             eprintln!("unknown facet {}", other);
             std::process::exit(2)
